@@ -185,6 +185,41 @@ def case_eta_transform(m, spec, eq, rec):
                 if v == 'differ':
                     return
     rec('eta_transform.neutral_at_eta0', 'discharged')
+    # removing the variability of a transformed eta gives the model function at that eta zero
+    for name in m.random_variables.etas.names[:2]:
+        case_remove_existing(m2, name, eq, rec, tag=f'eta_transform.remove_iiv[{name}]')
+
+
+def case_remove_existing(m, name, eq, rec, tag=None, reference=None):
+    sympy, pm, semeq = _W['sympy'], _W['pm'], _W['semeq']
+    tag = tag or f'iiv.remove_existing[{name}]'
+    reference = reference if reference is not None else m
+    m3 = pm.remove_iiv(m, name)
+    if name in m3.random_variables.etas.names:
+        rec(tag, 'violated', detail='eta still present')
+        return
+    d1, d3 = semeq.denote(reference.statements), semeq.denote(m3.statements)
+    at = {sympy.Symbol(name): 0}
+    extra = [sympy.Symbol(n) > 0 for n in new_names(reference, m)]
+    for s in d1.env:
+        if s in d3.env:
+            a, b = d1.env[s].xreplace(at), d3.env[s]
+            v, info = eq.check(a, b, extra=extra)
+            if v != 'equal':
+                rec(f'{tag}[{s}]', V(v), **dict(info, at_eta0=str(a)[:200], removed=str(b)[:200]))
+                if v == 'differ':
+                    return
+    for amt, rhs in d1.odes.items():
+        if amt in d3.odes:
+            v, info = eq.check(rhs.xreplace(at), d3.odes[amt], extra=extra)
+            if v != 'equal':
+                rec(f'{tag}[{amt}]', V(v), **info)
+                return
+    rec(tag, 'discharged')
+
+
+def case_iiv_existing(m, spec, eq, rec):
+    case_remove_existing(m, spec, eq, rec)
 
 
 def case_allometry(m, spec, eq, rec):
@@ -296,7 +331,7 @@ def case_rates(m, spec, eq, rec):
 
 
 KINDS = dict(covariate=case_covariate, iiv=case_iiv, eta_transform=case_eta_transform, allometry=case_allometry,
-             error=case_error, rates=case_rates)
+             error=case_error, rates=case_rates, iiv_existing=case_iiv_existing)
 
 
 def run_case(case):
@@ -348,6 +383,8 @@ def all_cases(thorough):
                 cases.append((start, 'iiv', (p, form)))
         for t in ('boxcox', 'tdist', 'john_draper'):
             cases.append((start, 'eta_transform', t))
+        for n in m.random_variables.iiv.names[: (4 if thorough else 2)]:
+            cases.append((start, 'iiv_existing', n))
         for c in cont[:1]:
             cases.append((start, 'allometry', (c, 70)))
         for e in ('additive', 'proportional', 'combined', 'power'):
